@@ -66,6 +66,7 @@ fn run_scenario<T: HS>(scenario: &str, cfg: &Cfg, out: &mut Out<T>) {
         "relw" => scen_rel::relw::<T>(cfg, out),
         "relmrhs" => scen_rel::relmrhs::<T>(cfg, out),
         "lin" => scen_rel::lin::<T>(cfg, out),
+        "relpar" => scen_rel::relpar::<T>(cfg, out),
         "stats" => scen_stats::run::<T>(cfg, out),
         "relw_stats" => scen_stats::relw_stats::<T>(cfg, out),
         "routing" => scen_routing::run::<T>(cfg, out),
